@@ -1,6 +1,1591 @@
-//! C08 -- monitor (to be written)
-use crate::fw::ctx;
+//! C08 -- tensor evaluation of diagrams and circuits agrees with the reference semantics;
+//! the comparison helpers decide exactly what they claim.
+//!
+//! Events and oracles
+//! * diagrams (families: arbitrary, graph-like, gadget-rich, the shapes the quantifier
+//!   lists, float-valued stored scalars, exhaustive tiny), both backends, plain and
+//!   scrambled vertex ids: `to_tensor4()` is read entry by entry through the raw-parts hook
+//!   and compared EXACTLY with the independent evaluator O2 (`snap::eval_graph`); entries
+//!   flagged approximate (and diagrams with phases outside pi/4) are compared in floating
+//!   point. `to_tensorf()` is compared with O2 in floating point, tolerance
+//!   1e-8 * max(1, largest entry). Shape must be [2; n_in + n_out]; entries are read by
+//!   explicit multi-index (inputs first, then outputs, in list order), so the check does
+//!   not depend on the memory layout of the returned array.
+//! * circuits over the gates `Circuit::to_tensor` supports (everything except
+//!   pp / init_anc / post_sel / measure_*): against the gate-matrix simulator O3.
+//!   Index convention verified by reading quizx/src/tensor.rs:401-471: the circuit tensor
+//!   starts as ident(q) (axes 0..q = inputs, q..2q = outputs), gates are applied to the
+//!   INPUT axes in reverse circuit order (all supported gate matrices are symmetric), hence
+//!   t[i_0..i_{q-1}, o_0..o_{q-1}] = <o|U|i>: inputs first, then outputs, qubit 0 first --
+//!   the same flat order as `oracle::sim::tensor_exact`.
+//! * helpers: `ident`, `delta`, `cphase`, `hadamard`, `hadamard_at`, `delta_at`,
+//!   `cphase_at`, `plug_n_qubits` against the model contractions of `oracle::tmodel`, on
+//!   arrays in standard and non-standard memory layouts (swap_axes, column-major, strided
+//!   slice, inverted axis); `==`, `scalar_eq`, `compare`, `scalar_compare` against the
+//!   model relations "equal" / "equal up to a non-zero scalar factor" on generated pairs,
+//!   exactly in `Tensor4`, and in `TensorF` only the float-robust clauses: identical
+//!   (bitwise, or the same object evaluated twice) => true; different shape => false;
+//!   entries differing by more than 1e-3 relative => `==`/`compare` false; both operands
+//!   clearly non-zero and not proportional within 1e-3 => `scalar_eq`/`scalar_compare`
+//!   false. ("exactly zero versus non-zero" is NOT float-robust for evaluated diagrams:
+//!   1 + e^{i pi} leaves 1e-16 in floating point, and any two non-zero numbers are
+//!   proportional.)
+//!
+//! A failing circuit / diagram is minimised before it is reported; for circuits the set of
+//! gate kinds of the minimised witness is the discriminating part of the signature.
+
+use crate::fw::{ctx, guarded, par_cases, Caught};
+use crate::gen::circuit::{circ_hash, circ_json, gen_circuit, to_quizx, CircParams, PhPool};
+use crate::gen::diagram::*;
+use crate::gen::prng::{hash_bytes, Rng};
+use crate::gen::shapes::{flags_of, gen_shapes, minimise};
+use crate::oracle::eval::{self, EvalError};
+use crate::oracle::ring::{cf_of_scalar, r_of_scalar, scalar_is_approx, scalar_of_r, Cf, Num, R};
+use crate::oracle::sim::{self, Circ, G};
+use crate::oracle::tmodel::{self, flat_of, index_of, InvSqrt2, MT};
+use crate::snap::{eval_graph, graph_json, Tens, FLOAT_TOL};
+use ndarray::{Array, Axis, Dimension, IxDyn, Slice};
+use num::complex::Complex;
+use num::Rational64;
+use quizx::graph::GraphLike;
+use quizx::scalar::Scalar4;
+use quizx::tensor::{CompareTensors, QubitOps, Tensor, Tensor4, TensorElem, TensorF, ToTensor};
+use serde_json::{json, Value};
+
+// =========================================================================================
+// element types: the two number types of the property, tied to their model types
+// =========================================================================================
+
+pub trait Elem: TensorElem + 'static {
+    type M: InvSqrt2 + PartialEq + 'static;
+    const NAME: &'static str;
+    /// values can be read and compared exactly
+    const EXACT: bool;
+    fn to_m(&self) -> Self::M;
+    fn of_m(m: &Self::M) -> Self;
+    /// entry carries quizx's "approximate" flag
+    fn flagged(&self) -> bool;
+    fn m_cf(m: &Self::M) -> Cf;
+    fn gen_m(r: &mut Rng) -> Self::M;
+    fn gen_ph(r: &mut Rng) -> (i64, i64);
+}
+
+impl Elem for Scalar4 {
+    type M = R;
+    const NAME: &'static str = "Scalar4";
+    const EXACT: bool = true;
+    fn to_m(&self) -> R {
+        r_of_scalar(self)
+    }
+    fn of_m(m: &R) -> Self {
+        scalar_of_r(m).expect("model value does not fit a Scalar4")
+    }
+    fn flagged(&self) -> bool {
+        scalar_is_approx(self)
+    }
+    fn m_cf(m: &R) -> Cf {
+        m.to_cf()
+    }
+    fn gen_m(r: &mut Rng) -> R {
+        let mut c = [0i64; 4];
+        match r.below(4) {
+            0 => c[0] = r.range(-4, 4),
+            1 => c[r.below(4)] = if r.chance(0.5) { 1 } else { -1 },
+            _ => {
+                for x in c.iter_mut() {
+                    if r.chance(0.6) {
+                        *x = r.range(-3, 3);
+                    }
+                }
+            }
+        }
+        if c == [0; 4] {
+            c[r.below(4)] = 1;
+        }
+        R::from_i64s(c, r.range(-2, 2))
+    }
+    fn gen_ph(r: &mut Rng) -> (i64, i64) {
+        gen_phase(r, PhasePool::Exact)
+    }
+}
+
+impl Elem for Complex<f64> {
+    type M = Cf;
+    const NAME: &'static str = "Complex64";
+    const EXACT: bool = false;
+    fn to_m(&self) -> Cf {
+        *self
+    }
+    fn of_m(m: &Cf) -> Self {
+        *m
+    }
+    fn flagged(&self) -> bool {
+        true
+    }
+    fn m_cf(m: &Cf) -> Cf {
+        *m
+    }
+    fn gen_m(r: &mut Rng) -> Cf {
+        if r.chance(0.3) {
+            Cf::new(r.range(-3, 3) as f64, r.range(-3, 3) as f64) + Cf::new(0.5, 0.0)
+        } else {
+            Cf::new(r.f64() * 4.0 - 2.0, r.f64() * 4.0 - 2.0)
+        }
+    }
+    fn gen_ph(r: &mut Rng) -> (i64, i64) {
+        gen_phase(r, PhasePool::Float)
+    }
+}
+
+/// tolerance of the helper checks in the float type (a handful of operations on entries
+/// of size O(1))
+const HELPER_TOL: f64 = 1e-9;
+
+// =========================================================================================
+// reading quizx tensors; entry-wise comparison
+// =========================================================================================
+
+/// Entries in logical order (first index most significant), read by explicit multi-index.
+pub fn flatten<A: Clone>(t: &Tensor<A>) -> Result<Vec<A>, String> {
+    if t.shape().iter().any(|&d| d != 2) {
+        return Err(format!("shape {:?} is not [2; n]", t.shape()));
+    }
+    let nd = t.ndim();
+    let mut out = Vec::with_capacity(1usize << nd);
+    for e in 0..(1usize << nd) {
+        let ix = index_of(e, nd);
+        out.push(t[&ix[..]].clone());
+    }
+    Ok(out)
+}
+
+#[derive(Debug, Clone, Default)]
+pub struct Diff {
+    pub bad: Vec<usize>,
+    pub exact_judged: usize,
+    pub float_judged: usize,
+    pub first: Option<(String, String)>,
+}
+
+impl Diff {
+    pub fn ok(&self) -> bool {
+        self.bad.is_empty()
+    }
+    pub fn json(&self, nd: usize) -> Value {
+        json!({
+            "mismatching_entries": self.bad.len(),
+            "first_mismatch_index": self.bad.first().map(|&e| index_of(e, nd)),
+            "first_mismatch_observed_expected": self.first,
+            "entries_compared_exactly": self.exact_judged,
+            "entries_compared_in_float": self.float_judged,
+        })
+    }
+}
+
+fn cfs(c: Cf) -> String {
+    format!("{:.12e}{:+.12e}i", c.re, c.im)
+}
+
+/// Tensor4 entries against an oracle tensor: exact where both sides are exact, float
+/// (tolerance `tol` * max(1, largest entry)) for entries flagged approximate or when the
+/// oracle itself is floating point.
+pub fn diff4(obs: &[Scalar4], exp: &Tens, tol: f64) -> Diff {
+    let mut d = Diff::default();
+    if obs.len() != exp.len() {
+        d.bad.push(0);
+        d.first = Some((format!("{} entries", obs.len()), format!("{} entries", exp.len())));
+        return d;
+    }
+    let expf = exp.to_float();
+    let obsf: Vec<Cf> = obs.iter().map(cf_of_scalar).collect();
+    let scale = expf.iter().chain(obsf.iter()).map(|x| x.norm()).fold(1.0f64, f64::max);
+    for e in 0..obs.len() {
+        let ok = match exp {
+            Tens::Exact(v) if !scalar_is_approx(&obs[e]) => {
+                d.exact_judged += 1;
+                r_of_scalar(&obs[e]) == v[e]
+            }
+            _ => {
+                d.float_judged += 1;
+                (obsf[e] - expf[e]).norm() <= tol * scale
+            }
+        };
+        if !ok {
+            if d.bad.is_empty() {
+                let o = format!("{} = {}", r_of_scalar(&obs[e]), cfs(obsf[e]));
+                let x = match exp {
+                    Tens::Exact(v) => format!("{} = {}", v[e], cfs(expf[e])),
+                    _ => cfs(expf[e]),
+                };
+                d.first = Some((o, x));
+            }
+            d.bad.push(e);
+        }
+    }
+    d
+}
+
+pub fn difff(obs: &[Cf], exp: &[Cf], tol: f64) -> Diff {
+    let mut d = Diff::default();
+    if obs.len() != exp.len() {
+        d.bad.push(0);
+        d.first = Some((format!("{} entries", obs.len()), format!("{} entries", exp.len())));
+        return d;
+    }
+    let scale = exp.iter().chain(obs.iter()).map(|x| x.norm()).fold(1.0f64, f64::max);
+    for e in 0..obs.len() {
+        d.float_judged += 1;
+        let ok = (obs[e] - exp[e]).norm() <= tol * scale; // NaN compares false => mismatch
+        if !ok {
+            if d.bad.is_empty() {
+                d.first = Some((cfs(obs[e]), cfs(exp[e])));
+            }
+            d.bad.push(e);
+        }
+    }
+    d
+}
+
+/// generic version for the helper checks
+pub fn diff_model<A: Elem>(obs: &[A], exp: &MT<A::M>) -> Diff {
+    let mut d = Diff::default();
+    if obs.len() != exp.data.len() {
+        d.bad.push(0);
+        d.first = Some((format!("{} entries", obs.len()), format!("{} entries", exp.data.len())));
+        return d;
+    }
+    let obsf: Vec<Cf> = obs.iter().map(|x| A::m_cf(&x.to_m())).collect();
+    let expf: Vec<Cf> = exp.data.iter().map(|x| A::m_cf(x)).collect();
+    let scale = expf.iter().chain(obsf.iter()).map(|x| x.norm()).fold(1.0f64, f64::max);
+    for e in 0..obs.len() {
+        let ok = if A::EXACT && !obs[e].flagged() {
+            d.exact_judged += 1;
+            obs[e].to_m() == exp.data[e]
+        } else {
+            d.float_judged += 1;
+            (obsf[e] - expf[e]).norm() <= HELPER_TOL * scale
+        };
+        if !ok {
+            if d.bad.is_empty() {
+                d.first = Some((format!("{:?}", obs[e]), format!("{:?}", exp.data[e])));
+            }
+            d.bad.push(e);
+        }
+    }
+    d
+}
+
+fn brief4(obs: &[Scalar4]) -> Value {
+    json!(obs.iter().take(32).map(|s| format!("{}", r_of_scalar(s))).collect::<Vec<_>>())
+}
+fn brieff(obs: &[Cf]) -> Value {
+    json!(obs.iter().take(32).map(|c| cfs(*c)).collect::<Vec<_>>())
+}
+
+// =========================================================================================
+// findings (returned, not recorded, so that the judges can be reused by the minimisers
+// and by the Miri workload, which has no run context)
+// =========================================================================================
+
+#[derive(Debug, Clone)]
+pub struct Finding {
+    pub sig: String,
+    pub detail: Value,
+}
+
+#[derive(Debug, Clone, Default)]
+pub struct JudgeStats {
+    pub entries_exact: usize,
+    pub entries4_float: usize,
+    pub entries_float: usize,
+    pub approx_entries_in_exact_case: usize,
+    pub oracle_exact: bool,
+    pub nonzero: bool,
+    pub n_bnd: usize,
+}
+
+fn panic_finding(site: &str, e: &Caught) -> Finding {
+    Finding { sig: format!("{site}|panic|{}", e.site()), detail: json!({"panic": e.text()}) }
+}
+
+/// value-mismatch class: only a global factor is wrong, or the entries themselves
+fn mismatch_class(obs: &[Cf], exp: &[Cf]) -> &'static str {
+    let zo = obs.iter().all(|x| x.norm() < 1e-12);
+    let ze = exp.iter().all(|x| x.norm() < 1e-12);
+    if zo != ze {
+        "zero-vs-nonzero"
+    } else if eval::proportional_float(obs, exp, 1e-6) {
+        "wrong-scalar-factor"
+    } else {
+        "wrong-entries"
+    }
+}
+
+/// Shared by diagrams and circuits: check one exact and one float tensor against `exp`.
+fn judge_tensors(
+    site: &str,
+    n: usize,
+    exp: &Tens,
+    t4: Result<Tensor4, Caught>,
+    tf: Result<TensorF, Caught>,
+    stats: &mut JudgeStats,
+    tf_root_cause: &dyn Fn(&[Cf], &[Cf]) -> Option<(String, Value)>,
+) -> Vec<Finding> {
+    let mut out = vec![];
+    let want_shape = vec![2usize; n];
+    let expf = exp.to_float();
+    match t4 {
+        Err(Caught::Oracle(_)) | Err(Caught::Budget(_)) => {}
+        Err(e) => out.push(panic_finding(&format!("{site}.to_tensor4"), &e)),
+        Ok(t) => {
+            if t.shape() != &want_shape[..] {
+                out.push(Finding {
+                    sig: format!("{site}.to_tensor4|wrong-shape"),
+                    detail: json!({"observed_shape": t.shape(), "expected_shape": want_shape}),
+                });
+            } else {
+                let obs = flatten(&t).expect("shape was checked");
+                let d = diff4(&obs, exp, FLOAT_TOL);
+                stats.entries_exact += d.exact_judged;
+                stats.entries4_float += d.float_judged;
+                if exp.is_exact() {
+                    stats.approx_entries_in_exact_case += d.float_judged;
+                }
+                if !d.ok() {
+                    let obsf: Vec<Cf> = obs.iter().map(cf_of_scalar).collect();
+                    out.push(Finding {
+                        sig: format!("{site}.to_tensor4|value-mismatch|{}", mismatch_class(&obsf, &expf)),
+                        detail: json!({"diff": d.json(n), "observed": brief4(&obs), "expected": exp.brief()}),
+                    });
+                }
+            }
+        }
+    }
+    match tf {
+        Err(Caught::Oracle(_)) | Err(Caught::Budget(_)) => {}
+        Err(e) => out.push(panic_finding(&format!("{site}.to_tensorf"), &e)),
+        Ok(t) => {
+            if t.shape() != &want_shape[..] {
+                out.push(Finding {
+                    sig: format!("{site}.to_tensorf|wrong-shape"),
+                    detail: json!({"observed_shape": t.shape(), "expected_shape": want_shape}),
+                });
+            } else {
+                let obs = flatten(&t).expect("shape was checked");
+                let d = difff(&obs, &expf, FLOAT_TOL);
+                stats.entries_float += d.float_judged;
+                if !d.ok() {
+                    let (class, extra) = match tf_root_cause(&obs, &expf) {
+                        Some((c, x)) => (c, x),
+                        None => (mismatch_class(&obs, &expf).to_string(), Value::Null),
+                    };
+                    out.push(Finding {
+                        sig: format!("{site}.to_tensorf|value-mismatch|{class}"),
+                        detail: json!({"diff": d.json(n), "observed": brieff(&obs), "expected": exp.brief(), "root_cause": extra}),
+                    });
+                }
+            }
+        }
+    }
+    out
+}
+
+/// Judge one graph. Err = inconclusive / not judged (with the reason).
+pub fn judge_graph<G: GraphLike + Clone>(g: &G) -> Result<(Vec<Finding>, JudgeStats), EvalError> {
+    let exp = eval_graph(g)?;
+    let n = g.inputs().len() + g.outputs().len();
+    let mut stats = JudgeStats { oracle_exact: exp.is_exact(), nonzero: !exp.is_all_zero(), n_bnd: n, ..Default::default() };
+    let t4 = guarded(|| g.to_tensor4());
+    let tf = guarded(|| g.to_tensorf());
+    // root cause probe for float mismatches: the f64 conversion of the stored scalar
+    // (quizx multiplies the float tensor by `Complex::try_from(scalar)`)
+    let scalar = *g.scalar();
+    let root = move |obs: &[Cf], expf: &[Cf]| -> Option<(String, Value)> {
+        let mine = cf_of_scalar(&scalar);
+        let theirs = guarded(|| Complex::<f64>::try_from(scalar)).ok()?.ok()?;
+        if (theirs - mine).norm() <= 1e-9 * mine.norm().max(1e-300) {
+            return None;
+        }
+        // does the wrong conversion explain the whole mismatch?
+        let explained = if mine.norm() > 0.0 {
+            let f = theirs / mine;
+            let adj: Vec<Cf> = expf.iter().map(|x| x * f).collect();
+            difff(obs, &adj, 1e-6).ok()
+        } else {
+            false
+        };
+        if !explained {
+            return None;
+        }
+        Some((
+            "scalar-f64-conversion".to_string(),
+            json!({
+                "stored_scalar_raw_parts(sign,approx,mantissa,exp)": format!("{:?}", scalar.verif_raw()),
+                "exact_value_of_stored_scalar": cfs(mine),
+                "quizx_conversion_to_complex_f64": cfs(theirs),
+                "explains_whole_mismatch": explained,
+            }),
+        ))
+    };
+    let out = judge_tensors("graph", n, &exp, t4, tf, &mut stats, &root);
+    Ok((out, stats))
+}
+
+fn oracle_circuit(c: &Circ) -> Tens {
+    if c.is_pi4() {
+        Tens::Exact(sim::tensor_exact(c).0)
+    } else {
+        Tens::Float(sim::tensor_float(c).0)
+    }
+}
+
+pub fn judge_circuit(c: &Circ) -> (Vec<Finding>, JudgeStats) {
+    let exp = oracle_circuit(c);
+    let n = 2 * c.n;
+    let mut stats = JudgeStats { oracle_exact: exp.is_exact(), nonzero: true, n_bnd: n, ..Default::default() };
+    let qc = to_quizx(c);
+    let t4 = guarded(|| qc.to_tensor4());
+    let tf = guarded(|| qc.to_tensorf());
+    let out = judge_tensors("Circuit", n, &exp, t4, tf, &mut stats, &|_: &[Cf], _: &[Cf]| None);
+    (out, stats)
+}
+
+/// Greedy 1-minimal circuit with respect to "a finding with signature `sig` is produced",
+/// followed by removal of unused qubits.
+pub fn minimise_circuit(c: &Circ, sig: &str) -> Circ {
+    let fails = |c: &Circ| judge_circuit(c).0.iter().any(|f| f.sig == sig);
+    let mut cur = c.clone();
+    let mut progress = true;
+    while progress {
+        progress = false;
+        for k in 0..cur.gates.len() {
+            let mut cand = cur.clone();
+            cand.gates.remove(k);
+            if fails(&cand) {
+                cur = cand;
+                progress = true;
+                break;
+            }
+        }
+    }
+    // compact qubits
+    let mut used: Vec<usize> = cur.gates.iter().flat_map(|g| g.qubits()).collect();
+    used.sort();
+    used.dedup();
+    if !used.is_empty() && used.len() < cur.n {
+        let m = |q: usize| used.iter().position(|&u| u == q).unwrap();
+        let gates: Option<Vec<G>> = cur
+            .gates
+            .iter()
+            .map(|g| {
+                Some(match g {
+                    G::Rz(q, p) => G::Rz(m(*q), *p),
+                    G::Rx(q, p) => G::Rx(m(*q), *p),
+                    G::X(q) => G::X(m(*q)),
+                    G::Z(q) => G::Z(m(*q)),
+                    G::S(q) => G::S(m(*q)),
+                    G::T(q) => G::T(m(*q)),
+                    G::Sdg(q) => G::Sdg(m(*q)),
+                    G::Tdg(q) => G::Tdg(m(*q)),
+                    G::H(q) => G::H(m(*q)),
+                    G::Cx(a, b) => G::Cx(m(*a), m(*b)),
+                    G::Cz(a, b) => G::Cz(m(*a), m(*b)),
+                    G::Xcx(a, b) => G::Xcx(m(*a), m(*b)),
+                    G::Swap(a, b) => G::Swap(m(*a), m(*b)),
+                    G::Ccz(a, b, c) => G::Ccz(m(*a), m(*b), m(*c)),
+                    G::Ccx(a, b, c) => G::Ccx(m(*a), m(*b), m(*c)),
+                    _ => return None,
+                })
+            })
+            .collect();
+        if let Some(gates) = gates {
+            let cand = Circ { n: used.len(), gates };
+            if fails(&cand) {
+                cur = cand;
+            }
+        }
+    }
+    cur
+}
+
+fn gate_kinds(c: &Circ) -> String {
+    let mut k: Vec<&str> = c.gates.iter().map(|g| g.name()).collect();
+    k.sort();
+    k.dedup();
+    k.join("+")
+}
+
+// =========================================================================================
+// diagram families
+// =========================================================================================
+
+#[derive(Clone, Copy, PartialEq, Debug)]
+enum ScalarMode {
+    AsDescribed,
+    /// multiply the stored scalar by two float-valued numbers, so that its coefficients are
+    /// approximate and (about half of the time) have 64 significant mantissa bits
+    FloatProduct,
+}
+
+fn build_for<GG: GraphLike + Clone>(d: &DDesc, scr: Option<u64>, mode: ScalarMode, extra: (f64, f64, f64, f64)) -> GG {
+    let (mut g, _) = d.build::<GG>(scr);
+    if mode == ScalarMode::FloatProduct {
+        let s = *g.scalar() * Scalar4::complex(extra.0, extra.1) * Scalar4::complex(extra.2, extra.3);
+        *g.scalar_mut() = s;
+    }
+    g
+}
+
+fn check_diagram(family: &'static str, index: u64, r: &mut Rng, d: &DDesc, mode: ScalarMode) {
+    let c = ctx();
+    let scr = if r.chance(0.5) { Some(r.next_u64()) } else { None };
+    let extra = (r.f64() * 2.0 - 1.0, r.f64() * 2.0 - 1.0, r.f64() * 2.0 - 1.0, r.f64() * 2.0 - 1.0);
+    let flags = flags_of(d);
+    let mut any_stats = None;
+    for backend in ["vec", "hash"] {
+        let res = if backend == "vec" {
+            let g: quizx::vec_graph::Graph = build_for(d, scr, mode, extra);
+            judge_graph(&g).map(|x| (x, graph_json(&g)))
+        } else {
+            let g: quizx::hash_graph::Graph = build_for(d, scr, mode, extra);
+            judge_graph(&g).map(|x| (x, graph_json(&g)))
+        };
+        let ((findings, stats), gj) = match res {
+            Ok(x) => x,
+            Err(EvalError::TooWide(_)) => {
+                c.skipped();
+                return;
+            }
+            Err(EvalError::IllFormed(m)) => {
+                c.harness_error(&format!("C08 generator produced an ill-formed diagram ({family}#{index}): {m}"));
+                return;
+            }
+        };
+        c.count(&format!("graph-evaluations:{backend}"), 2);
+        c.count("tensor4-entries-compared-exactly", stats.entries_exact as u64);
+        c.count("tensor4-entries-compared-in-float", stats.entries4_float as u64);
+        c.count("tensorf-entries-compared", stats.entries_float as u64);
+        c.count("approx-flagged-entries-in-exact-diagrams", stats.approx_entries_in_exact_case as u64);
+        c.count(if stats.oracle_exact { "diagrams-with-exact-oracle" } else { "diagrams-with-float-oracle" }, 1);
+        c.maximum("max-boundaries", stats.n_bnd as u64);
+        for f in findings {
+            // minimise on the description (same backend, same scramble and scalar mode)
+            let sig = f.sig.clone();
+            let fails = |dd: &DDesc| -> bool {
+                let r = if backend == "vec" {
+                    judge_graph(&build_for::<quizx::vec_graph::Graph>(dd, scr, mode, extra))
+                } else {
+                    judge_graph(&build_for::<quizx::hash_graph::Graph>(dd, scr, mode, extra))
+                };
+                matches!(r, Ok((fs, _)) if fs.iter().any(|x| x.sig == sig))
+            };
+            let small = minimise(d, &fails);
+            c.violation(
+                &f.sig,
+                family,
+                index,
+                json!({
+                    "backend": backend, "scrambled_ids": scr.is_some(), "scalar_mode": format!("{mode:?}"),
+                    "float_factors": [extra.0, extra.1, extra.2, extra.3],
+                    "diagram": d.to_json(), "graph_as_built": gj, "shape_flags": flags.names(),
+                    "minimised_diagram": small.to_json(),
+                    "finding": f.detail,
+                }),
+            );
+        }
+        any_stats = Some(stats);
+    }
+    let stats = any_stats.unwrap();
+    for n in flags.names() {
+        c.count(&format!("shape:{n}"), 1);
+    }
+    if d.inputs.len() > 0 && d.outputs.len() > 0 {
+        c.count("shape:has-inputs-and-outputs", 1);
+    }
+    let nontrivial = d.verts.len() >= 2 && !d.edges.is_empty() && stats.nonzero;
+    c.case(family, if nontrivial { Some(d.hash() ^ (mode as u64)) } else { None });
+    c.evals(3); // 2 backends x 2 number types per diagram
+    c.sample_n(3, || json!({"family": family, "index": index, "diagram": d.to_json(), "flags": flags.names()}));
+}
+
+// =========================================================================================
+// circuit families
+// =========================================================================================
+
+fn check_circuit(family: &'static str, index: u64, circ: &Circ) {
+    let c = ctx();
+    let (findings, stats) = judge_circuit(circ);
+    c.count("circuit-evaluations", 2);
+    c.count("tensor4-entries-compared-exactly", stats.entries_exact as u64);
+    c.count("tensor4-entries-compared-in-float", stats.entries4_float as u64);
+    c.count("tensorf-entries-compared", stats.entries_float as u64);
+    c.count(if stats.oracle_exact { "circuits-with-exact-oracle" } else { "circuits-with-float-oracle" }, 1);
+    c.maximum("max-circuit-qubits", circ.n as u64);
+    c.maximum("max-circuit-gates", circ.gates.len() as u64);
+    for g in &circ.gates {
+        c.count(&format!("gate:{}", g.name()), 1);
+    }
+    for f in findings {
+        let small = minimise_circuit(circ, &f.sig);
+        let (sf, _) = judge_circuit(&small);
+        let small_detail = sf.iter().find(|x| x.sig == f.sig).map(|x| x.detail.clone());
+        let sig = if f.sig.contains("|panic|") { f.sig.clone() } else { format!("{}|gates={}", f.sig, gate_kinds(&small)) };
+        c.violation(
+            &sig,
+            family,
+            index,
+            json!({
+                "circuit": circ_json(circ), "finding": f.detail,
+                "minimised_circuit": circ_json(&small), "minimised_finding": small_detail,
+            }),
+        );
+    }
+    c.case(family, if circ.gates.len() >= 2 { Some(circ_hash(circ)) } else { None });
+    c.evals(1);
+    c.sample_n(5, || json!({"family": family, "index": index, "circuit": circ_json(circ)}));
+}
+
+fn circ_params(max_q: usize, max_d: usize, pool: PhPool, swap: bool) -> CircParams {
+    let mut p = CircParams::unitary(max_q, max_d, pool);
+    p.pp = false; // Circuit::to_tensor panics "Unsupported gate" on pp / ancilla / measure
+    p.swap = swap;
+    p
+}
+
+// =========================================================================================
+// helper constructors and in-place operations
+// =========================================================================================
+
+#[derive(Clone, Copy, Debug, PartialEq)]
+pub enum Layout {
+    Standard,
+    Swapped(usize, usize),
+    ColumnMajor,
+    Strided(usize),
+    Inverted(usize),
+}
+
+impl Layout {
+    pub fn name(&self) -> &'static str {
+        match self {
+            Layout::Standard => "standard",
+            Layout::Swapped(..) => "swap_axes",
+            Layout::ColumnMajor => "column-major",
+            Layout::Strided(_) => "strided-slice",
+            Layout::Inverted(_) => "inverted-axis",
+        }
+    }
+    pub fn pick(r: &mut Rng, nd: usize) -> Layout {
+        if nd == 0 {
+            return Layout::Standard;
+        }
+        match r.below(if nd >= 2 { 6 } else { 3 }) {
+            0 => Layout::Standard,
+            1 => Layout::Strided(r.below(nd)),
+            2 => Layout::Inverted(r.below(nd)),
+            3 => Layout::ColumnMajor,
+            _ => {
+                let i = r.below(nd);
+                let mut j = r.below(nd - 1);
+                if j >= i {
+                    j += 1;
+                }
+                Layout::Swapped(i, j)
+            }
+        }
+    }
+}
+
+/// An ndarray whose LOGICAL content is `m`, stored in the requested memory layout.
+pub fn build<A: Elem>(m: &MT<A::M>, l: Layout) -> Tensor<A> {
+    let nd = m.nd;
+    let shape = vec![2usize; nd];
+    let at = |ix: &[usize]| A::of_m(&m.data[flat_of(ix)]);
+    match l {
+        Layout::Standard => Array::from_shape_fn(IxDyn(&shape), |ix| at(ix.slice())),
+        Layout::Swapped(i, j) => {
+            let mut a = Array::from_shape_fn(IxDyn(&shape), |ix| {
+                let mut v = ix.slice().to_vec();
+                v.swap(i, j);
+                at(&v)
+            });
+            a.swap_axes(i, j);
+            a
+        }
+        Layout::ColumnMajor => {
+            let a = Array::from_shape_fn(IxDyn(&shape), |ix| {
+                let mut v = ix.slice().to_vec();
+                v.reverse();
+                at(&v)
+            });
+            a.reversed_axes()
+        }
+        Layout::Strided(k) => {
+            let mut sh = shape.clone();
+            sh[k] = 4;
+            let junk = A::of_m(&A::M::from_phase(1, 4));
+            let mut a = Array::from_shape_fn(IxDyn(&sh), |ix| {
+                let mut v = ix.slice().to_vec();
+                let odd = v[k] % 2 == 1;
+                v[k] /= 2;
+                if odd {
+                    junk
+                } else {
+                    at(&v)
+                }
+            });
+            a.slice_axis_inplace(Axis(k), Slice::new(0, None, 2));
+            a
+        }
+        Layout::Inverted(k) => {
+            let mut a = Array::from_shape_fn(IxDyn(&shape), |ix| {
+                let mut v = ix.slice().to_vec();
+                v[k] = 1 - v[k];
+                at(&v)
+            });
+            a.invert_axis(Axis(k));
+            a
+        }
+    }
+}
+
+pub fn gen_mt<A: Elem>(r: &mut Rng, nd: usize, zero_prob: f64) -> MT<A::M> {
+    MT::new(nd, (0..(1usize << nd)).map(|_| if r.chance(zero_prob) { A::M::zero() } else { A::gen_m(r) }).collect())
+}
+
+fn mt_json<A: Elem>(m: &MT<A::M>) -> Value {
+    json!({"indices": m.nd, "entries(flat, first index most significant)": m.data.iter().map(|x| format!("{x:?}")).collect::<Vec<_>>()})
+}
+
+fn ph_q(p: (i64, i64)) -> Rational64 {
+    Rational64::new(p.0, p.1)
+}
+
+/// Compare a quizx result tensor with the model; returns a finding on disagreement.
+fn judge_result<A: Elem>(site: &str, cond: &str, res: Result<Tensor<A>, Caught>, exp: &MT<A::M>, input: Value) -> Option<Finding> {
+    let ty = A::NAME;
+    match res {
+        Err(Caught::Oracle(_)) | Err(Caught::Budget(_)) => None,
+        Err(e) => Some(Finding { sig: format!("{site}|panic|{cond}"), detail: json!({"panic": e.text(), "element_type": ty, "input": input}) }),
+        Ok(t) => {
+            let want = vec![2usize; exp.nd];
+            if t.shape() != &want[..] {
+                return Some(Finding {
+                    sig: format!("{site}|wrong-shape|{cond}"),
+                    detail: json!({"observed_shape": t.shape(), "expected_shape": want, "element_type": ty, "input": input}),
+                });
+            }
+            let obs = flatten(&t).expect("shape checked");
+            let d = diff_model::<A>(&obs, exp);
+            if d.ok() {
+                None
+            } else {
+                Some(Finding {
+                    sig: format!("{site}<{ty}>|value-mismatch|{cond}"),
+                    detail: json!({
+                        "diff": d.json(exp.nd), "input": input,
+                        "observed": obs.iter().take(64).map(|x| format!("{:?}", x.to_m())).collect::<Vec<_>>(),
+                        "expected": exp.data.iter().take(64).map(|x| format!("{x:?}")).collect::<Vec<_>>(),
+                    }),
+                })
+            }
+        }
+    }
+}
+
+fn constructor_cases<A: Elem>() -> Vec<(String, Box<dyn Fn() -> Tensor<A> + Send + Sync>, MT<A::M>)> {
+    let mut v: Vec<(String, Box<dyn Fn() -> Tensor<A> + Send + Sync>, MT<A::M>)> = vec![];
+    for q in 0..=4usize {
+        v.push((format!("ident({q})"), Box::new(move || Tensor::<A>::ident(q)), MT::ident(q)));
+    }
+    for q in 1..=6usize {
+        v.push((format!("delta({q})"), Box::new(move || Tensor::<A>::delta(q)), MT::delta(q)));
+    }
+    let mut phases: Vec<(i64, i64)> = vec![(0, 1), (1, 4), (1, 2), (3, 4), (1, 1), (-1, 4), (-1, 2), (-3, 4)];
+    if !A::EXACT {
+        phases.extend([(1, 3), (-2, 5), (7, 8), (-5, 16), (1, 1024)]);
+    }
+    for q in 1..=3usize {
+        for &p in &phases {
+            v.push((format!("cphase({}/{},{q})", p.0, p.1), Box::new(move || Tensor::<A>::cphase(ph_q(p), q)), MT::cphase(p.0, p.1, q)));
+        }
+    }
+    v.push(("hadamard()".into(), Box::new(|| Tensor::<A>::hadamard()), MT::hadamard()));
+    v
+}
+
+fn run_constructors<A: Elem>(family: &'static str) {
+    let n = constructor_cases::<A>().len();
+    par_cases(family, n, move |_r, i| {
+        let c = ctx();
+        let cases = constructor_cases::<A>();
+        let (name, f, exp) = &cases[i as usize];
+        let res = guarded(|| f());
+        let site = name.split('(').next().unwrap().to_string();
+        if let Some(fi) = judge_result::<A>(&site, "constructor", res, exp, json!({"call": name})) {
+            c.violation(&fi.sig, family, i, fi.detail);
+        }
+        c.count(&format!("helper:{site}<{}>", A::NAME), 1);
+        c.case(family, Some(hash_bytes(format!("{}{}", A::NAME, name).as_bytes())));
+    });
+}
+
+#[derive(Clone, Debug)]
+enum Op {
+    Had(usize),
+    Delta(Vec<usize>),
+    CPhase((i64, i64), Vec<usize>),
+}
+
+fn gen_qs(r: &mut Rng, nd: usize) -> Vec<usize> {
+    let mut qs: Vec<usize> = (0..nd).collect();
+    r.shuffle(&mut qs);
+    qs.truncate(1 + r.below(nd.min(3)));
+    qs
+}
+
+fn check_inplace<A: Elem>(family: &'static str, index: u64, r: &mut Rng) {
+    let c = ctx();
+    let nd = 1 + r.below(5);
+    let zp = *r.pick(&[0.0, 0.3]);
+    let m0 = gen_mt::<A>(r, nd, zp);
+    let layout = Layout::pick(r, nd);
+    let mut t: Tensor<A> = build::<A>(&m0, layout);
+    match flatten(&t) {
+        Ok(f) if diff_model::<A>(&f, &m0).ok() => {}
+        _ => {
+            c.harness_error(&format!("C08 layout builder does not reproduce the model tensor ({layout:?})"));
+            return;
+        }
+    }
+    let mut m = m0.clone();
+    let nops = 1 + r.below(3);
+    let mut history = vec![];
+    for _ in 0..nops {
+        let op = match r.below(3) {
+            0 => Op::Had(r.below(nd)),
+            1 => Op::Delta(gen_qs(r, nd)),
+            _ => Op::CPhase(A::gen_ph(r), gen_qs(r, nd)),
+        };
+        history.push(format!("{op:?}"));
+        let (site, exp) = match &op {
+            Op::Had(i) => ("hadamard_at", m.hadamard_at(*i)),
+            Op::Delta(qs) => ("delta_at", m.delta_at(qs)),
+            Op::CPhase(p, qs) => ("cphase_at", m.cphase_at(p.0, p.1, qs)),
+        };
+        let mut t2 = t.clone();
+        let res = guarded(move || {
+            match &op {
+                Op::Had(i) => t2.hadamard_at(*i),
+                Op::Delta(qs) => t2.delta_at(qs),
+                Op::CPhase(p, qs) => t2.cphase_at(ph_q(*p), qs),
+            }
+            t2
+        });
+        c.count(&format!("helper:{site}<{}>:{}", A::NAME, layout.name()), 1);
+        let input = json!({"tensor": mt_json::<A>(&m0), "layout": format!("{layout:?}"), "operations": history});
+        let cond = if layout == Layout::Standard { "standard-layout" } else { "nonstandard-layout" };
+        match judge_result::<A>(site, cond, res.clone(), &exp, input) {
+            Some(f) => {
+                c.violation(&f.sig, family, index, f.detail);
+                break;
+            }
+            None => {}
+        }
+        match res {
+            Ok(tt) => t = tt,
+            Err(_) => break,
+        }
+        m = exp;
+    }
+    let h = hash_bytes(format!("{}{:?}{:?}{:?}", A::NAME, m0.data, layout, history).as_bytes());
+    c.case(family, if nd >= 2 { Some(h) } else { None });
+}
+
+// ------------------------------------------------------------------------------------------
+// plug_n_qubits
+// ------------------------------------------------------------------------------------------
+
+fn check_plug<A: Elem>(family: &'static str, index: u64, r: &mut Rng) {
+    let c = ctx();
+    // scenario: 0 baseline (other has exactly 2n indices, standard layouts -- the only form
+    // the in-repo test uses), 1 self in a non-standard layout, 2 other in a non-standard
+    // layout, 3 other.ndim != 2n, 4 free mix
+    let scenario = r.below(5);
+    let (d1, d2, n) = loop {
+        let n = r.below(4);
+        let d1 = n + r.below(4 - n.min(3));
+        let d2 = if scenario <= 2 { 2 * n } else { n + r.below(4) };
+        if d1 + d2 - 2 * n <= 6 && d1 <= 5 && d2 <= 6 {
+            if scenario == 3 && d2 == 2 * n {
+                continue;
+            }
+            if (scenario == 1 && d1 == 0) || (scenario == 2 && d2 == 0) {
+                continue;
+            }
+            break (d1, d2, n);
+        }
+    };
+    let (za, zb) = (*r.pick(&[0.0, 0.3]), *r.pick(&[0.0, 0.3]));
+    let ma = gen_mt::<A>(r, d1, za);
+    let mb = gen_mt::<A>(r, d2, zb);
+    let nonstd = |r: &mut Rng, nd: usize| loop {
+        let l = Layout::pick(r, nd);
+        if l != Layout::Standard {
+            break l;
+        }
+    };
+    let (la, lb) = match scenario {
+        0 | 3 => (Layout::Standard, Layout::Standard),
+        1 => (nonstd(r, d1), Layout::Standard),
+        2 => (Layout::Standard, nonstd(r, d2)),
+        _ => (Layout::pick(r, d1), Layout::pick(r, d2)),
+    };
+    let exp = ma.plug(n, &mb);
+    let run = |la: Layout, lb: Layout| -> Result<Tensor<A>, Caught> {
+        let a = build::<A>(&ma, la);
+        let b = build::<A>(&mb, lb);
+        guarded(move || a.plug_n_qubits(n, &b))
+    };
+    let input = json!({
+        "self": mt_json::<A>(&ma), "self_layout": format!("{la:?}"),
+        "other": mt_json::<A>(&mb), "other_layout": format!("{lb:?}"), "n": n,
+    });
+    c.count(&format!("helper:plug_n_qubits<{}>", A::NAME), 1);
+    c.count(&format!("plug:self-layout={}", la.name()), 1);
+    c.count(&format!("plug:other-layout={}", lb.name()), 1);
+    c.count(
+        if d2 == 2 * n {
+            "plug:other-ndim=2n"
+        } else if d2 > 2 * n {
+            "plug:other-ndim>2n"
+        } else {
+            "plug:other-ndim<2n"
+        },
+        1,
+    );
+    c.count(&format!("plug:n={n}"), 1);
+    let first = judge_result::<A>("plug_n_qubits", "?", run(la, lb), &exp, input.clone());
+    if let Some(f) = first {
+        // attribute the failure: remove the non-baseline conditions one at a time
+        let ndim_cond = if d2 > 2 * n {
+            "other-ndim>2n"
+        } else if d2 < 2 * n {
+            "other-ndim<2n"
+        } else {
+            "baseline"
+        };
+        let both_std = judge_result::<A>("plug_n_qubits", ndim_cond, run(Layout::Standard, Layout::Standard), &exp, input.clone());
+        let reported = if let Some(f2) = both_std {
+            f2
+        } else {
+            let self_std = judge_result::<A>("plug_n_qubits", "other-nonstandard-layout", run(Layout::Standard, lb), &exp, input.clone());
+            match self_std {
+                Some(f3) => f3,
+                None => Finding { sig: f.sig.replace("|?", "|self-nonstandard-layout"), detail: f.detail },
+            }
+        };
+        c.violation(&reported.sig, family, index, reported.detail);
+    }
+    let h = hash_bytes(format!("{}{:?}{:?}{:?}{:?}{n}", A::NAME, ma.data, mb.data, la, lb).as_bytes());
+    c.case(family, if n >= 1 && d1 + d2 >= 3 { Some(h) } else { None });
+}
+
+// =========================================================================================
+// comparison helpers
+// =========================================================================================
+
+/// A literal tensor as a `ToTensor` implementor, so that `compare` / `scalar_compare` can
+/// be driven with arbitrary pairs (the conversion to the float type goes through quizx's
+/// `TryFrom<Scalar4>`, on small exact values only).
+#[derive(Clone)]
+pub struct Lit(pub Tensor4);
+
+impl ToTensor for Lit {
+    fn to_tensor<A: TensorElem>(&self) -> Tensor<A> {
+        self.0.map(|s| A::try_from(*s).unwrap())
+    }
+}
+
+pub const PAIR_CLASSES: [&str; 11] = [
+    "identical",
+    "unit-scaled",
+    "nonunit-scaled",
+    "zero-scaled",
+    "entry-perturbed",
+    "first-nonzero-moved",
+    "both-zero",
+    "different-ndim",
+    "same-size-different-shape",
+    "scaled-and-perturbed",
+    "independent",
+];
+
+fn nonunit(r: &mut Rng) -> R {
+    let w = |k| R::omega_pow(k);
+    match r.below(6) {
+        0 => R::one().add(&w(1)),
+        1 => R::sqrt2_pow(1),
+        2 => R::int(2),
+        3 => R::int(3),
+        4 => R::one().add(&w(1).mul(&R::int(2))),
+        _ => R::from_i64s([1, 0, 0, -1], -1),
+    }
+}
+
+/// (T, U, reshape U's first two axes into one?) for a class
+fn gen_pair(r: &mut Rng, class: &str) -> (MT<R>, MT<R>, bool) {
+    let nd = match class {
+        "same-size-different-shape" => 2 + r.below(3),
+        _ => r.below(5),
+    };
+    let zp = *r.pick(&[0.0, 0.3, 0.7]);
+    let mut t = gen_mt::<Scalar4>(r, nd, zp);
+    if class != "both-zero" && t.is_all_zero() {
+        t.data[r.below(1 << nd)] = Scalar4::gen_m(r);
+    }
+    let len = 1usize << nd;
+    let mut reshape = false;
+    let u = match class {
+        "identical" => t.clone(),
+        "unit-scaled" => t.scale(&R::omega_pow(1 + r.below(7) as i64)),
+        "nonunit-scaled" => t.scale(&nonunit(r)),
+        "zero-scaled" => t.scale(&R::zero()),
+        "entry-perturbed" => {
+            let mut u = t.clone();
+            let e = r.below(len);
+            u.data[e] = match r.below(3) {
+                0 => u.data[e].add(&R::one()),
+                1 if !u.data[e].is_zero() => R::zero(),
+                _ => u.data[e].add(&Scalar4::gen_m(r)),
+            };
+            u
+        }
+        "first-nonzero-moved" => {
+            let mut u = t.clone();
+            let p = t.first_nonzero().unwrap();
+            let zeros: Vec<usize> = (0..len).filter(|&e| t.data[e].is_zero()).collect();
+            match r.below(3) {
+                // an earlier entry becomes non-zero
+                0 if p > 0 => u.data[r.below(p)] = Scalar4::gen_m(r),
+                // the same first non-zero VALUE, at another position (scalar_eq then
+                // finds equal leading values and must still answer false)
+                1 if !zeros.is_empty() => u.data.swap(p, zeros[r.below(zeros.len())]),
+                // the first non-zero entry disappears
+                _ => u.data[p] = R::zero(),
+            }
+            u
+        }
+        "both-zero" => {
+            t = MT::zeros(nd);
+            MT::zeros(nd)
+        }
+        "different-ndim" => {
+            let nd2 = if nd == 0 || r.chance(0.5) { nd + 1 } else { nd - 1 };
+            match r.below(3) {
+                0 => gen_mt::<Scalar4>(r, nd2, zp),
+                1 => MT::zeros(nd2),
+                // the same data repeated / truncated
+                _ => MT::from_fn(nd2, |e| t.data[e % len].clone()),
+            }
+        }
+        "same-size-different-shape" => {
+            reshape = true;
+            if r.chance(0.5) {
+                t.clone()
+            } else {
+                t.scale(&R::omega_pow(2))
+            }
+        }
+        "scaled-and-perturbed" => {
+            let mut u = t.scale(&if r.chance(0.5) { R::omega_pow(1 + r.below(7) as i64) } else { nonunit(r) });
+            let e = r.below(len);
+            u.data[e] = u.data[e].add(&R::one());
+            u
+        }
+        _ => gen_mt::<Scalar4>(r, nd, zp),
+    };
+    (t, u, reshape)
+}
+
+fn reshape_first_two(t: &Tensor4) -> Tensor4 {
+    let mut sh: Vec<usize> = t.shape().to_vec();
+    let a = sh.remove(0);
+    sh[0] *= a;
+    let data: Vec<Scalar4> = t.iter().cloned().collect();
+    Array::from_shape_vec(IxDyn(&sh), data).expect("reshape")
+}
+
+fn report_bool(site: &str, ty: &str, class: &str, got: Result<bool, Caught>, want: bool, family: &'static str, index: u64, input: &Value) {
+    let c = ctx();
+    c.count(&format!("compare:{site}<{ty}>:model={want}"), 1);
+    match got {
+        Ok(b) if b == want => {}
+        Ok(b) => c.violation(
+            &format!("{site}<{ty}>|answers-{b}-model-{want}|{class}"),
+            family,
+            index,
+            json!({"observed": b, "expected_by_model": want, "pair": input}),
+        ),
+        Err(Caught::Oracle(_)) | Err(Caught::Budget(_)) => {}
+        Err(e) => c.violation(&format!("{site}<{ty}>|panic|{class}"), family, index, json!({"panic": e.text(), "pair": input})),
+    }
+}
+
+fn check_pair4(family: &'static str, index: u64, r: &mut Rng) {
+    let c = ctx();
+    let class = PAIR_CLASSES[(index as usize) % PAIR_CLASSES.len()];
+    let (mt, mu, reshape) = gen_pair(r, class);
+    let (lt, lu) = if r.chance(0.5) { (Layout::Standard, Layout::Standard) } else { (Layout::pick(r, mt.nd), Layout::pick(r, mu.nd)) };
+    let t: Tensor4 = build::<Scalar4>(&mt, lt);
+    let mut u: Tensor4 = build::<Scalar4>(&mu, lu);
+    if reshape {
+        u = reshape_first_two(&u);
+    }
+    let same_shape = t.shape() == u.shape();
+    let eq_m = same_shape && mt.data == mu.data;
+    let seq_m = same_shape && eval::proportional_exact(&mt.data, &mu.data);
+    let input = json!({
+        "class": class, "t0": mt_json::<Scalar4>(&mt), "t0_layout": format!("{lt:?}"), "t0_shape": t.shape(),
+        "t1": mt_json::<Scalar4>(&mu), "t1_layout": format!("{lu:?}"), "t1_shape": u.shape(),
+    });
+    c.count(&format!("pairs4:{class}:equal={eq_m}:proportional={seq_m}"), 1);
+    // exact type: every clause is decided
+    let (t1, u1) = (t.clone(), u.clone());
+    report_bool("==", "Scalar4", class, guarded(move || t1 == u1), eq_m, family, index, &input);
+    let (t1, u1) = (t.clone(), u.clone());
+    report_bool("scalar_eq", "Scalar4", class, guarded(move || Tensor4::scalar_eq(&t1, &u1)), seq_m, family, index, &input);
+    let (t1, u1) = (t.clone(), u.clone());
+    report_bool("scalar_eq(swapped-args)", "Scalar4", class, guarded(move || Tensor4::scalar_eq(&u1, &t1)), seq_m, family, index, &input);
+    let (a, b) = (Lit(t.clone()), Lit(u.clone()));
+    report_bool("compare", "Scalar4", class, guarded(|| Tensor4::compare(&a, &b)), eq_m, family, index, &input);
+    report_bool("scalar_compare", "Scalar4", class, guarded(|| Tensor4::scalar_compare(&a, &b)), seq_m, family, index, &input);
+    // float type through the same literals: only the float-robust clauses
+    let tf: Vec<Cf> = mt.data.iter().map(|x| x.to_cf()).collect();
+    let uf: Vec<Cf> = mu.data.iter().map(|x| x.to_cf()).collect();
+    let scale = tf.iter().chain(uf.iter()).map(|x| x.norm()).fold(1e-300f64, f64::max);
+    let clearly_unequal = !same_shape || tf.iter().zip(uf.iter()).any(|(x, y)| (x - y).norm() > 1e-3 * scale);
+    let clearly_unprop = !same_shape || !eval::proportional_float(&tf, &uf, 1e-3) || !eval::proportional_float(&uf, &tf, 1e-3);
+    if class == "identical" {
+        report_bool("compare", "Complex64", class, guarded(|| TensorF::compare(&a, &b)), true, family, index, &input);
+        report_bool("scalar_compare", "Complex64", class, guarded(|| TensorF::scalar_compare(&a, &b)), true, family, index, &input);
+    } else {
+        if clearly_unequal {
+            report_bool("compare", "Complex64", class, guarded(|| TensorF::compare(&a, &b)), false, family, index, &input);
+        } else {
+            c.count("compare:not-judged-in-float(not float-robust)", 1);
+        }
+        if clearly_unprop {
+            report_bool("scalar_compare", "Complex64", class, guarded(|| TensorF::scalar_compare(&a, &b)), false, family, index, &input);
+        } else {
+            c.count("scalar_compare:not-judged-in-float(not float-robust)", 1);
+        }
+    }
+    let h = hash_bytes(format!("{:?}{:?}{lt:?}{lu:?}", mt.data, mu.data).as_bytes());
+    c.case(family, if mt.nd >= 1 { Some(h) } else { None });
+    c.evals(8);
+}
+
+/// TensorF pairs built directly from float data: identical => true, different shape =>
+/// false, clearly different => false.
+fn check_pairf(family: &'static str, index: u64, r: &mut Rng) {
+    let c = ctx();
+    let classes = ["identical", "different-ndim", "entry-perturbed", "independent", "clearly-scaled", "both-zero", "zero-vs-nonzero"];
+    let class = classes[(index as usize) % classes.len()];
+    let nd = r.below(5);
+    let zp = *r.pick(&[0.0, 0.3, 0.7]);
+    let mut mt = gen_mt::<Cf>(r, nd, zp);
+    if mt.is_all_zero() {
+        mt.data[0] = Cf::new(1.0, -0.5);
+    }
+    let len = 1usize << nd;
+    let mu: MT<Cf> = match class {
+        "identical" => mt.clone(),
+        "different-ndim" => {
+            let nd2 = if nd == 0 || r.chance(0.5) { nd + 1 } else { nd - 1 };
+            MT::from_fn(nd2, |e| mt.data[e % len])
+        }
+        "entry-perturbed" => {
+            let mut u = mt.clone();
+            let e = r.below(len);
+            u.data[e] += Cf::new(0.75, 0.25);
+            u
+        }
+        "clearly-scaled" => mt.scale(&Cf::new(0.3, 1.1)),
+        "both-zero" => {
+            mt = MT::zeros(nd);
+            MT::zeros(nd)
+        }
+        "zero-vs-nonzero" => MT::zeros(nd),
+        _ => gen_mt::<Cf>(r, nd, zp),
+    };
+    let (lt, lu) = (Layout::pick(r, mt.nd), Layout::pick(r, mu.nd));
+    let t: TensorF = build::<Cf>(&mt, lt);
+    let u: TensorF = build::<Cf>(&mu, lu);
+    let same_shape = mt.nd == mu.nd;
+    let input = json!({"class": class, "t0": mt_json::<Cf>(&mt), "t0_layout": format!("{lt:?}"), "t1": mt_json::<Cf>(&mu), "t1_layout": format!("{lu:?}")});
+    let scale = mt.data.iter().chain(mu.data.iter()).map(|x| x.norm()).fold(1e-300f64, f64::max);
+    let identical = same_shape && mt.data == mu.data;
+    let clearly_unequal = !same_shape || mt.data.iter().zip(mu.data.iter()).any(|(x, y)| (x - y).norm() > 1e-3 * scale);
+    let clearly_unprop =
+        !same_shape || !eval::proportional_float(&mt.data, &mu.data, 1e-3) || !eval::proportional_float(&mu.data, &mt.data, 1e-3);
+    if identical {
+        let (t1, u1) = (t.clone(), u.clone());
+        report_bool("==", "Complex64", class, guarded(move || t1 == u1), true, family, index, &input);
+        let (t1, u1) = (t.clone(), u.clone());
+        report_bool("scalar_eq", "Complex64", class, guarded(move || TensorF::scalar_eq(&t1, &u1)), true, family, index, &input);
+    } else {
+        if clearly_unequal {
+            let (t1, u1) = (t.clone(), u.clone());
+            report_bool("==", "Complex64", class, guarded(move || t1 == u1), false, family, index, &input);
+        }
+        if clearly_unprop {
+            let (t1, u1) = (t.clone(), u.clone());
+            report_bool("scalar_eq", "Complex64", class, guarded(move || TensorF::scalar_eq(&t1, &u1)), false, family, index, &input);
+        } else {
+            c.count("scalar_eq:not-judged-in-float(not float-robust)", 1);
+        }
+    }
+    let h = hash_bytes(format!("{:?}{:?}{lt:?}{lu:?}", mt.data, mu.data).as_bytes());
+    c.case(family, if nd >= 1 { Some(h) } else { None });
+}
+
+/// compare / scalar_compare on real diagrams and circuits, relation decided by the oracles.
+fn check_compare_objects(family: &'static str, index: u64, r: &mut Rng) {
+    let c = ctx();
+    let classes = ["identical", "scalar-changed", "zero-scalar", "phase-changed", "independent", "different-boundary-count", "circuit-pair"];
+    let class = classes[(index as usize) % classes.len()];
+    let judge = |class: &str, e0: &Tens, e1: &Tens, input: Value, res4: [Result<bool, Caught>; 2], resf: [Result<bool, Caught>; 2], identical: bool| {
+        let same_len = e0.len() == e1.len();
+        if let (Tens::Exact(a), Tens::Exact(b)) = (e0, e1) {
+            let eq_m = same_len && a == b;
+            let seq_m = same_len && eval::proportional_exact(a, b);
+            c.count(&format!("objects:{class}:equal={eq_m}:proportional={seq_m}"), 1);
+            let [r0, r1] = res4;
+            report_bool("compare(objects)", "Scalar4", class, r0, eq_m, family, index, &input);
+            report_bool("scalar_compare(objects)", "Scalar4", class, r1, seq_m, family, index, &input);
+        }
+        let (f0, f1) = (e0.to_float(), e1.to_float());
+        let scale = f0.iter().chain(f1.iter()).map(|x| x.norm()).fold(1e-300f64, f64::max);
+        let [r0, r1] = resf;
+        if identical {
+            report_bool("compare(objects)", "Complex64", class, r0, true, family, index, &input);
+            report_bool("scalar_compare(objects)", "Complex64", class, r1, true, family, index, &input);
+        } else {
+            if !same_len || f0.iter().zip(f1.iter()).any(|(x, y)| (x - y).norm() > 1e-3 * scale) {
+                report_bool("compare(objects)", "Complex64", class, r0, false, family, index, &input);
+            }
+            // a tensor that is exactly zero need not come out as exact 0.0 in floating point
+            // (1 + e^{i pi} leaves 1e-16), so "zero versus non-zero" is not a float-robust
+            // clause: both operands must be clearly non-zero
+            let n0 = f0.iter().map(|x| x.norm()).fold(0.0f64, f64::max);
+            let n1 = f1.iter().map(|x| x.norm()).fold(0.0f64, f64::max);
+            let both_nonzero = n0 > 1e-6 && n1 > 1e-6;
+            if !same_len || (both_nonzero && (!eval::proportional_float(&f0, &f1, 1e-3) || !eval::proportional_float(&f1, &f0, 1e-3))) {
+                report_bool("scalar_compare(objects)", "Complex64", class, r1, false, family, index, &input);
+            } else {
+                c.count("scalar_compare(objects):not-judged-in-float(not float-robust)", 1);
+            }
+        }
+    };
+    if class == "circuit-pair" {
+        let mut p = circ_params(3, 8, PhPool::Exact, true);
+        p.xcx = false; // keeps this family independent of the XCX evaluation (covered by the circuit families)
+        let c0 = gen_circuit(r, &p);
+        let mut c1 = c0.clone();
+        let sub = r.below(4);
+        match sub {
+            0 => {}
+            1 => {
+                // insert a gate and its inverse somewhere: still equal
+                let q = r.below(c1.n);
+                let at = r.below(c1.gates.len() + 1);
+                let (g, gi) = r.pick(&[(G::T(q), G::Tdg(q)), (G::H(q), G::H(q)), (G::S(q), G::Sdg(q)), (G::X(q), G::X(q))]).clone();
+                c1.gates.insert(at, gi);
+                c1.gates.insert(at, g);
+            }
+            2 => {
+                // X rz(-a) X = e^{-i a} rz(a): equal up to a global phase only
+                let q = r.below(c1.n);
+                c1.gates.push(G::Rz(q, (1, 4)));
+                let mut c0b = c0.clone();
+                c0b.gates.extend([G::X(q), G::Rz(q, (-1, 4)), G::X(q)]);
+                let (e0, e1) = (oracle_circuit(&c0b), oracle_circuit(&c1));
+                let (q0, q1) = (to_quizx(&c0b), to_quizx(&c1));
+                let input = json!({"class": class, "sub": "global-phase", "c0": circ_json(&c0b), "c1": circ_json(&c1)});
+                let res4 = [guarded(|| Tensor4::compare(&q0, &q1)), guarded(|| Tensor4::scalar_compare(&q0, &q1))];
+                let resf = [guarded(|| TensorF::compare(&q0, &q1)), guarded(|| TensorF::scalar_compare(&q0, &q1))];
+                judge("circuit-pair:global-phase", &e0, &e1, input, res4, resf, false);
+                c.case(family, Some(circ_hash(&c0b) ^ circ_hash(&c1).rotate_left(1)));
+                return;
+            }
+            _ => {
+                if !c1.gates.is_empty() {
+                    let k = r.below(c1.gates.len());
+                    c1.gates.remove(k);
+                }
+            }
+        }
+        let (e0, e1) = (oracle_circuit(&c0), oracle_circuit(&c1));
+        let (q0, q1) = (to_quizx(&c0), to_quizx(&c1));
+        let input = json!({"class": class, "sub": sub, "c0": circ_json(&c0), "c1": circ_json(&c1)});
+        let res4 = [guarded(|| Tensor4::compare(&q0, &q1)), guarded(|| Tensor4::scalar_compare(&q0, &q1))];
+        let resf = [guarded(|| TensorF::compare(&q0, &q1)), guarded(|| TensorF::scalar_compare(&q0, &q1))];
+        judge(&format!("circuit-pair:{sub}"), &e0, &e1, input, res4, resf, sub == 0);
+        c.case(family, Some(circ_hash(&c0) ^ circ_hash(&c1).rotate_left(1)));
+        return;
+    }
+    let params = DiagParams { max_spiders: 6, max_bnd: 4, pool: PhasePool::Exact, graph_like: false, bare_wires: true, var_prob: 0.0 };
+    let d0 = if r.chance(0.5) { gen_random(r, &params) } else { gen_shapes(r, PhasePool::Exact, 4) };
+    let mut d1 = d0.clone();
+    match class {
+        "identical" => {}
+        "scalar-changed" => {
+            d1.scalar = gen_scalar(r);
+        }
+        "zero-scalar" => {
+            d1.scalar = DScalar { coeffs: [0; 4], pow: 0 };
+            if r.chance(0.3) {
+                // both zero
+                let mut d0z = d0.clone();
+                d0z.scalar = DScalar { coeffs: [0; 4], pow: 0 };
+                return compare_descs(family, index, "zero-scalar:both", &d0z, &d1, false, &judge);
+            }
+        }
+        "phase-changed" => {
+            let sp: Vec<usize> = (0..d1.verts.len()).filter(|&i| d1.verts[i].kind != crate::oracle::eval::VK::B).collect();
+            if let Some(&i) = sp.get(r.below(sp.len().max(1))) {
+                d1.verts[i].ph = gen_phase(r, PhasePool::Exact);
+            }
+        }
+        "different-boundary-count" => {
+            d1 = loop {
+                let d = gen_random(r, &params);
+                if d.inputs.len() + d.outputs.len() != d0.inputs.len() + d0.outputs.len() {
+                    break d;
+                }
+            };
+        }
+        _ => {
+            // independent diagram with the same number of boundaries (any in/out split)
+            let nb = d0.inputs.len() + d0.outputs.len();
+            let mut tries = 0;
+            d1 = loop {
+                let d = gen_random(r, &params);
+                tries += 1;
+                if d.inputs.len() + d.outputs.len() == nb || tries > 200 {
+                    break d;
+                }
+            };
+        }
+    }
+    compare_descs(family, index, class, &d0, &d1, class == "identical", &judge);
+}
+
+fn compare_descs(
+    family: &'static str,
+    index: u64,
+    class: &str,
+    d0: &DDesc,
+    d1: &DDesc,
+    identical: bool,
+    judge: &dyn Fn(&str, &Tens, &Tens, Value, [Result<bool, Caught>; 2], [Result<bool, Caught>; 2], bool),
+) {
+    let c = ctx();
+    // mixed backends on purpose: compare() takes two independent `impl ToTensor`
+    let (g0, _) = d0.build::<quizx::vec_graph::Graph>(None);
+    let (g1, _) = d1.build::<quizx::hash_graph::Graph>(Some(d1.hash()));
+    let (e0, e1) = match (eval_graph(&g0), eval_graph(&g1)) {
+        (Ok(a), Ok(b)) => (a, b),
+        _ => {
+            c.skipped();
+            return;
+        }
+    };
+    let input = json!({"class": class, "g0(vec backend)": d0.to_json(), "g1(hash backend, scrambled ids)": d1.to_json()});
+    let res4 = [guarded(|| Tensor4::compare(&g0, &g1)), guarded(|| Tensor4::scalar_compare(&g0, &g1))];
+    let resf = [guarded(|| TensorF::compare(&g0, &g1)), guarded(|| TensorF::scalar_compare(&g0, &g1))];
+    // "identical" in the float clause needs bitwise identical evaluation; two backends may
+    // contract in a different order, so the float `true` clause is only demanded when the
+    // same object is compared with itself
+    let (res4, resf, identical) = if identical {
+        let r4 = [guarded(|| Tensor4::compare(&g0, &g0)), guarded(|| Tensor4::scalar_compare(&g0, &g0))];
+        let rf = [guarded(|| TensorF::compare(&g0, &g0)), guarded(|| TensorF::scalar_compare(&g0, &g0))];
+        // the cross-backend exact comparison is still judged
+        if let (Tens::Exact(a), Tens::Exact(b)) = (&e0, &e1) {
+            let [x0, x1] = res4;
+            report_bool("compare(objects,cross-backend)", "Scalar4", class, x0, a == b, family, index, &input);
+            report_bool("scalar_compare(objects,cross-backend)", "Scalar4", class, x1, eval::proportional_exact(a, b), family, index, &input);
+        }
+        let _ = resf;
+        (r4, rf, true)
+    } else {
+        (res4, resf, false)
+    };
+    if identical {
+        judge(class, &e0, &e0, input, res4, resf, true);
+    } else {
+        judge(class, &e0, &e1, input, res4, resf, false);
+    }
+    c.case(family, if d0.verts.len() >= 2 { Some(d0.hash() ^ d1.hash().rotate_left(1) ^ hash_bytes(class.as_bytes())) } else { None });
+    c.evals(7);
+}
+
+// =========================================================================================
+// sanitizer layer (thorough tier)
+// =========================================================================================
+
+fn run_sanitizer() {
+    let c = ctx();
+    let script = format!("{}/harness/sanitize_c08.sh", crate::fw::VERIF_DIR);
+    let out = std::process::Command::new("bash").arg(&script).output();
+    match out {
+        Err(e) => c.inconclusive("miri-not-run", json!({"error": e.to_string()})),
+        Ok(o) => {
+            let txt = String::from_utf8_lossy(&o.stdout).to_string();
+            let last = txt.lines().rev().find(|l| l.trim_start().starts_with('{')).unwrap_or("").to_string();
+            match serde_json::from_str::<Value>(&last) {
+                Ok(v) => {
+                    let ub = v.get("ub_reports").and_then(|x| x.as_u64()).unwrap_or(0);
+                    let inconclusive = v.get("inconclusive").and_then(|x| x.as_bool()).unwrap_or(false);
+                    let mism = v.get("mismatches").and_then(|x| x.as_u64()).unwrap_or(0);
+                    if inconclusive {
+                        c.inconclusive("miri", v.clone());
+                    } else {
+                        if ub > 0 {
+                            c.violation("miri_c08|undefined-behaviour-report", "sanitizer", 0, v.clone());
+                        }
+                        if mism > 0 {
+                            c.violation("miri_c08|result-mismatch-under-miri", "sanitizer", 0, v.clone());
+                        }
+                    }
+                    c.extra("sanitizer_miri", v);
+                }
+                Err(_) => c.inconclusive("miri-unparsable-summary", json!({"stdout_tail": txt.lines().rev().take(5).collect::<Vec<_>>() })),
+            }
+        }
+    }
+}
+
+// =========================================================================================
+// run
+// =========================================================================================
 
 pub fn run() {
-    ctx().harness_error("C08 monitor not implemented yet");
+    let c = ctx();
+    let t = c.tier;
+    if let Err(e) = tmodel::self_test() {
+        c.harness_error(&format!("tmodel self-test failed: {e}"));
+        return;
+    }
+    c.set_rule(
+        "cases = generated diagrams (each evaluated in 2 backends x 2 number types), circuits (2 number types), helper calls and tensor pairs; \
+         a diagram is non-trivial when it has >= 2 vertices, >= 1 edge and a reference tensor that is not identically zero; a circuit when it has >= 2 gates; \
+         an in-place/plug helper case when the tensors have >= 2 indices (plug: n >= 1); a comparison pair when the tensors have >= 1 index; \
+         distinct = distinct serialised inputs (64-bit hash)",
+    );
+    c.assume("independent evaluator O2, gate simulator O3, ring O1 and the tensor model (oracle/tmodel.rs) are correct (self-tested at start; O2/O3/tmodel cross-checked against each other)");
+    c.assume("Tensor4 entries are read through the raw-parts hook; entries flagged approximate by quizx, and diagrams/circuits with phases outside pi/4, are compared in f64 with tolerance 1e-8*max(1,largest entry)");
+    c.assume("circuit tensor index order verified from tensor.rs: axes 0..q inputs, q..2q outputs (gates are applied to the input axes in reverse order; all supported gates are symmetric matrices)");
+    c.assume("TensorF comparison helpers are judged only on float-robust clauses: identical => true, different shape => false, difference / non-proportionality above 1e-3 relative => false");
+    c.assume("plug_n_qubits is called with every n <= min(ndim self, ndim other) as its doc comment allows; delta_at / cphase_at with distinct in-range axes");
+
+    // ---- diagrams -----------------------------------------------------------------------
+    let k = t.pick(3usize, 60usize);
+    let ms = t.pick(8usize, 11usize);
+    par_cases("diag-arbitrary-exact", 700 * k, move |r, i| {
+        let d = gen_random(r, &DiagParams { max_spiders: ms, max_bnd: 6, pool: PhasePool::Exact, graph_like: false, bare_wires: true, var_prob: 0.0 });
+        check_diagram("diag-arbitrary-exact", i, r, &d, ScalarMode::AsDescribed);
+    });
+    par_cases("diag-arbitrary-float", 400 * k, move |r, i| {
+        let d = gen_random(r, &DiagParams { max_spiders: ms, max_bnd: 6, pool: PhasePool::Float, graph_like: false, bare_wires: true, var_prob: 0.0 });
+        check_diagram("diag-arbitrary-float", i, r, &d, ScalarMode::AsDescribed);
+    });
+    par_cases("diag-graph-like", 400 * k, move |r, i| {
+        let d = gen_random(r, &DiagParams { max_spiders: ms + 2, max_bnd: 6, pool: PhasePool::CliffordHeavy, graph_like: true, bare_wires: false, var_prob: 0.0 });
+        check_diagram("diag-graph-like", i, r, &d, ScalarMode::AsDescribed);
+    });
+    par_cases("diag-gadget-rich", 300 * k, move |r, i| {
+        let pool = if r.chance(0.5) { PhasePool::Exact } else { PhasePool::CliffordHeavy };
+        let d = gen_gadget_rich(r, 5, pool, 0.0);
+        check_diagram("diag-gadget-rich", i, r, &d, ScalarMode::AsDescribed);
+    });
+    par_cases("diag-shapes-exact", 800 * k, move |r, i| {
+        let d = gen_shapes(r, PhasePool::Exact, 7);
+        check_diagram("diag-shapes-exact", i, r, &d, ScalarMode::AsDescribed);
+    });
+    par_cases("diag-shapes-float", 300 * k, move |r, i| {
+        let d = gen_shapes(r, PhasePool::Float, 7);
+        check_diagram("diag-shapes-float", i, r, &d, ScalarMode::AsDescribed);
+    });
+    par_cases("diag-float-scalar", 100 * k, move |r, i| {
+        let d = if r.chance(0.5) {
+            gen_shapes(r, PhasePool::Exact, 4)
+        } else {
+            gen_random(r, &DiagParams { max_spiders: 5, max_bnd: 4, pool: PhasePool::Float, graph_like: false, bare_wires: true, var_prob: 0.0 })
+        };
+        check_diagram("diag-float-scalar", i, r, &d, ScalarMode::FloatProduct);
+    });
+    // exhaustive tiny diagrams
+    let max_ns = t.pick(2usize, 3usize);
+    let mut space_total = 0u64;
+    let mut done = true;
+    for ns in 0..=max_ns {
+        let space = tiny_space(ns);
+        // ns = 3 is 4.2e6 diagrams: thorough tier walks a fixed stride through it
+        let stride = if ns == 3 { 7u64 } else { 1 };
+        space_total += space / stride;
+        let chunk = 256u64;
+        let nchunks = ((space / stride + chunk - 1) / chunk) as usize;
+        let fam: &'static str = ["diag-tiny-0", "diag-tiny-1", "diag-tiny-2", "diag-tiny-3"][ns];
+        par_cases(fam, nchunks, move |r, ci| {
+            for j in 0..chunk {
+                let idx = (ci * chunk + j) * stride;
+                if let Some(d) = tiny_diagram(ns, idx) {
+                    check_diagram(fam, ci, r, &d, ScalarMode::AsDescribed);
+                }
+            }
+        });
+        if c.out_of_time() {
+            done = false;
+        }
+    }
+    c.extra("exhaustive_tiny", json!({"max_spiders": max_ns, "diagrams": space_total, "stride_at_3_spiders": 7, "completed": done}));
+
+    // ---- circuits -----------------------------------------------------------------------
+    let (cq, cd) = t.pick((4usize, 16usize), (5usize, 30usize));
+    par_cases("circ-exact", 700 * k, move |r, i| {
+        let swap = r.chance(0.5);
+        let circ = gen_circuit(r, &circ_params(cq, cd, PhPool::Exact, swap));
+        check_circuit("circ-exact", i, &circ);
+    });
+    par_cases("circ-float", 400 * k, move |r, i| {
+        let swap = r.chance(0.5);
+        let circ = gen_circuit(r, &circ_params(cq, cd, PhPool::Float, swap));
+        check_circuit("circ-float", i, &circ);
+    });
+    par_cases("circ-short", 400 * k, move |r, i| {
+        // short circuits on few qubits: every gate kind alone and in pairs is hit often
+        let circ = gen_circuit(r, &circ_params(3, 3, PhPool::Exact, true));
+        check_circuit("circ-short", i, &circ);
+    });
+
+    // ---- helpers ------------------------------------------------------------------------
+    run_constructors::<Scalar4>("helpers-constructors-exact");
+    run_constructors::<Complex<f64>>("helpers-constructors-float");
+    par_cases("helpers-inplace-exact", 600 * k, |r, i| check_inplace::<Scalar4>("helpers-inplace-exact", i, r));
+    par_cases("helpers-inplace-float", 400 * k, |r, i| check_inplace::<Complex<f64>>("helpers-inplace-float", i, r));
+    par_cases("helpers-plug-exact", 800 * k, |r, i| check_plug::<Scalar4>("helpers-plug-exact", i, r));
+    par_cases("helpers-plug-float", 400 * k, |r, i| check_plug::<Complex<f64>>("helpers-plug-float", i, r));
+    par_cases("compare-pairs-exact", 1100 * k, |r, i| check_pair4("compare-pairs-exact", i, r));
+    par_cases("compare-pairs-float", 560 * k, |r, i| check_pairf("compare-pairs-float", i, r));
+    par_cases("compare-objects", 560 * k, |r, i| check_compare_objects("compare-objects", i, r));
+
+    // ---- sanitizer ------------------------------------------------------------------------
+    if t == crate::fw::Tier::Thorough && c.replay.is_none() {
+        run_sanitizer();
+    } else {
+        c.extra("sanitizer_miri", json!({"ran": false, "reason": "thorough tier only"}));
+    }
+    c.extra("exhaustive", json!(false));
 }
